@@ -124,6 +124,7 @@ type Enc struct {
 	content   bool
 	owner     bool
 	localRefs map[string]bool // objects allocated by the function under verification (not yet shared)
+	fpFuns    []string
 	compTypes map[string]types.Type
 	compKind  map[string]string // field | elem | mapval
 }
